@@ -30,7 +30,7 @@ func (s scen) name() string {
 	if s.kind == "platform-late-error" {
 		return fmt.Sprintf("first-ends=crash-at-timeout rogue=none(the platform's own error report for #1 may be late) ext=%v B=%d", s.ext, s.bound)
 	}
-	if s.kind == "slow-response" {
+	if s.slowKind() {
 		return fmt.Sprintf("first-ends=%s rogue=%s(tail after %d ms) ext=%v B=%d", s.ending, s.kind, s.tailMs, s.ext, s.bound)
 	}
 	return s.name0()
@@ -101,7 +101,7 @@ func (s scen) config(rp **rec) *stack.Config {
 					rt.Sleep(300 * 1e6) // give the extension's exit time to land first
 				}
 			}
-			if s.kind == "slow-response" && k == 3 {
+			if s.slowKind() && k == 3 {
 				rt.Sleep(500 * 1e6) // invocation 2 is in flight for a while
 			}
 			if strings.HasPrefix(s.kind, "case-variant") && k == 3 {
@@ -150,7 +150,7 @@ func (s scen) run(c *hx.Ctx) *hx.ScenarioResult {
 		// invocation 0 (healthy, gives an "older" id), invocation 1 (ends as the scenario says)
 		sched.Region(false)
 		w.Invoke(echo(0), nil)
-		if s.kind == "slow-response" {
+		if s.slowKind() {
 			s.slow(w, r)
 			return
 		}
@@ -245,7 +245,11 @@ func (s scen) slow(w *stack.World, r *rec) {
 	rt := sched.Go("rogue", func() {
 		defer stack.QuietExit()
 		sched.Block("await-invocation-1", nil, func() bool { return len(r.ids) >= 2 })
-		r.rogue = append(r.rogue, rogue.ResponseSlow(r.ids[1], []byte(`"ROG`), []byte(`UE"`), time.Duration(s.tailMs)*time.Millisecond))
+		if s.kind == "slow-error" {
+			r.rogue = append(r.rogue, rogue.ErrorSlow(r.ids[1], "Function.Rogue", []byte(`{"errorMessage":`), []byte(`"ROGUE"}`), time.Duration(s.tailMs)*time.Millisecond))
+		} else {
+			r.rogue = append(r.rogue, rogue.ResponseSlow(r.ids[1], []byte(`"ROG`), []byte(`UE"`), time.Duration(s.tailMs)*time.Millisecond))
+		}
 	})
 	w.Invoke(echo(1), nil)
 	w.Invoke(echo(2), nil)
@@ -255,6 +259,8 @@ func (s scen) slow(w *stack.World, r *rec) {
 	w.Invoke(echo(3), nil)
 	sched.Finish()
 }
+
+func (s scen) slowKind() bool { return s.kind == "slow-response" || s.kind == "slow-error" }
 
 func (s scen) judge(e *sched.Exec) (string, string, *sched.Failure) {
 	w := stack.WorldOf(e)
@@ -281,7 +287,7 @@ func (s scen) judge(e *sched.Exec) (string, string, *sched.Failure) {
 		outs = append(outs, fmt.Sprintf("rogue:%d:%s", c.Status, m.ErrorType))
 		if c.Aborted {
 			failf("1", "rogue-aborted:"+s.kind, "the %s submission made the handler panic: %s", s.kind, c.Panic)
-		} else if c.Status == 202 && s.kind == "slow-response" {
+		} else if c.Status == 202 && s.slowKind() {
 			// it was for the invocation in flight when it was made: acceptance is not a violation by itself
 		} else if c.Status == 202 {
 			failf("1", "rogue-accepted:"+s.kind, "the %s submission (id %s) was accepted with 202", s.kind, c.ReqID)
@@ -358,6 +364,7 @@ func init() {
 		}
 		for _, t := range tails {
 			ss = append(ss, scen{ending: "timeout", kind: "slow-response", bound: b, tailMs: t})
+			ss = append(ss, scen{ending: "timeout", kind: "slow-error", bound: b, tailMs: t})
 			if tier == "thorough" {
 				ss = append(ss, scen{ending: "timeout", kind: "slow-response", ext: true, bound: 1, tailMs: t})
 			}
